@@ -24,7 +24,8 @@ namespace avel {
 
         explicit Denominator(Denom32u denom):
             m(denom.m),
-            sh2(denom.sh2),
+            sh1(vec4x32u{std::uint32_t(denom.d != 1)}),
+            sh2(denom.d != 1 ? denom.sh2 : std::uint32_t(0)),
             d(denom.d) {}
 
         explicit Denominator(vec4x32u d):
